@@ -33,7 +33,9 @@ func VerifC11_PosHandlers() {
 		who := []sdk.Address{e.Addrs[0], e.Addrs[2], sdk.Address(bytes.Repeat([]byte{9}, 20))}[zz.Choice("who", 3)]
 		msg = types.MsgUnjail{ValidatorAddr: who}
 	case 4:
-		msg = types.MsgSend{FromAddress: e.Addrs[2], ToAddress: e.Addrs[1], Amount: keeper.VSymInt("amt", 1, 1<<51)}
+		// to another account, or to the address of a module account that has not been created yet
+		to := []sdk.Address{e.Addrs[1], e.AK.GetModuleAddress(types.ModuleName), e.AK.GetModuleAddress("fee_collector")}[zz.Choice("to", 3)]
+		msg = types.MsgSend{FromAddress: e.Addrs[2], ToAddress: to, Amount: keeper.VSymInt("amt", 1, 1<<51)}
 	}
 	if msg.ValidateBasic() != nil {
 		zz.Reach("C11.pos.rejected-by-validate-basic")
